@@ -73,7 +73,7 @@ class C13(Profile):
     owns_registries = True
     tiers = {'quick': 2400, 'thorough': 200000}
     wall_cap = {'quick': 1200, 'thorough': 6 * 3600}
-    probes = ['new_version_with_custom_properties', 'navigation_with_caller_filters', 'arg_nested_extension_dict', 'arg_observed_data_objects', 'failing_call_checked', 'fault_interrupted_call_checked',
+    probes = ['same_instant_twins_in_one_structure', 'new_version_with_custom_properties', 'navigation_with_caller_filters', 'arg_nested_extension_dict', 'arg_observed_data_objects', 'failing_call_checked', 'fault_interrupted_call_checked',
               'object_shared_by_bundle_and_store', 'deepcopy_disjoint', 'assignment_refused', 'stored_dict_by_reference',
               'factory_list_default', 'registration_args_checked', 'marking_on_pooled_dict', 'new_version_of_stored_object',
               'extensions_dict_of_objects', 'argument_too_deep_to_copy']
@@ -313,6 +313,24 @@ class C13(Profile):
         v = self.pick(op['a'], self.is_obj)
         if v is None:
             return
+        if op['c'] % 4 == 0:
+            # one structure holding two DIFFERENT versions of one id minted under a standing clock (same modified instant,
+            # different content), as a bundle or a plain list: the copy holds two different objects as well
+            base = self.pick(op['b'], self.versionable)
+            if base is not None and self.is_obj(base):
+                self.world.clock.set(1800000000000000 + op['n'] * 1000, mode='fixed')
+                a = call(self.s.versioning.new_version, base, labels=['twin-a'])
+                b = call(self.s.versioning.new_version, base, labels=['twin-b'])
+                if a.ok and b.ok:
+                    V = self.s.v21 if 'spec_version' in U.to_json(base) else self.s.v20
+                    bun = call(lambda: V.Bundle(a.value, b.value, allow_custom=True))
+                    v = bun.value if (bun.ok and op['c'] % 8 == 0) else [a.value, b.value]
+                    self.world.probe('same_instant_twins_in_one_structure')
+                    if isinstance(v, list):
+                        out = self.monitored('deepcopy', copy.deepcopy, v)
+                        if not out.ok or out.value != v or [U.to_json(x) for x in out.value] != [U.to_json(x) for x in v]:
+                            raise Violation('deepcopy', 'C13.deepcopy-not-equal', dict(type='list of two versions with one (id, modified)'))
+                        return
         out = self.monitored('deepcopy', copy.deepcopy, v)
         if not out.ok and isinstance(out.exc, RecursionError) and 'too-deep' in repr(fingerprint(v)):
             # the object holds content nested beyond what copy.deepcopy can walk under the interpreter's recursion limit
